@@ -243,16 +243,20 @@ func (m *multiStreamListener) Acquire() (StreamListener, error) {
 		closeCh:  make(chan struct{}),
 		onCloseFunc: func() error {
 			m.mu.Lock()
-			defer m.mu.Unlock()
 			m.count--
-			if m.count == 0 {
-				m.ln.Close()
-				m.ln = nil
-				if m.onCloseFunc != nil {
-					onCloseFunc := m.onCloseFunc
-					m.onCloseFunc = nil
-					return onCloseFunc()
-				}
+			if m.count > 0 {
+				m.mu.Unlock()
+				return nil
+			}
+			m.ln.Close()
+			m.ln = nil
+			onCloseFunc := m.onCloseFunc
+			m.onCloseFunc = nil
+			// Release our lock before calling the owner: it locks itself first and
+			// then us (see listenerManager), so calling it with our lock held deadlocks.
+			m.mu.Unlock()
+			if onCloseFunc != nil {
+				return onCloseFunc()
 			}
 			return nil
 		},
@@ -286,23 +290,27 @@ func (m *multiPacketListener) Acquire() (net.PacketConn, error) {
 		if err != nil {
 			return nil, err
 		}
+		readCh := make(chan readRequest)
+		doneCh := make(chan struct{})
 		m.pc = pc
-		m.readCh = make(chan readRequest)
-		m.doneCh = make(chan struct{})
+		m.readCh = readCh
+		m.doneCh = doneCh
+		// The goroutine serves the socket and channels it was started for; they are
+		// replaced if the listener is acquired again after a full close.
 		go func() {
 			buffer := make([]byte, serverUDPBufferSize)
 			for {
-				n, addr, err := m.pc.ReadFrom(buffer)
+				n, addr, err := pc.ReadFrom(buffer)
 				pkt := buffer[:n]
 				select {
-				case req := <-m.readCh:
+				case req := <-readCh:
 					n := copy(req.buffer, pkt)
 					req.respCh <- struct {
 						n    int
 						addr net.Addr
 						err  error
 					}{n, addr, err}
-				case <-m.doneCh:
+				case <-doneCh:
 					return
 				}
 			}
@@ -316,16 +324,21 @@ func (m *multiPacketListener) Acquire() (net.PacketConn, error) {
 		closeCh:    make(chan struct{}),
 		onCloseFunc: func() error {
 			m.mu.Lock()
-			defer m.mu.Unlock()
 			m.count--
-			if m.count == 0 {
-				close(m.doneCh)
-				m.pc.Close()
-				if m.onCloseFunc != nil {
-					onCloseFunc := m.onCloseFunc
-					m.onCloseFunc = nil
-					return onCloseFunc()
-				}
+			if m.count > 0 {
+				m.mu.Unlock()
+				return nil
+			}
+			close(m.doneCh)
+			m.pc.Close()
+			m.pc = nil
+			onCloseFunc := m.onCloseFunc
+			m.onCloseFunc = nil
+			// Release our lock before calling the owner: it locks itself first and
+			// then us (see listenerManager), so calling it with our lock held deadlocks.
+			m.mu.Unlock()
+			if onCloseFunc != nil {
+				return onCloseFunc()
 			}
 			return nil
 		},
